@@ -168,7 +168,7 @@ def end_to_end(c, tier):
     to the declared length, allocatable results of the exact length), with and without F_CFI."""
     import concurrent.futures as cf
     from rt import libgen, fgen, cases as K
-    STR = {"cstr_in", "tdstr_in", "str_cref", "str_ref_inout", "str_ref_out"}
+    STR = {"cstr_in", "tdstr_in", "str_cref", "str_v", "str_ref_inout", "str_ref_out"}
 
     def stringy(x):
         return x["result"] in ("cstr", "str_cref", "char1", "char3") or any(p["kind"] in STR for p in x["params"])
@@ -177,6 +177,7 @@ def end_to_end(c, tier):
         lib = libgen.without_cfi_conflict(libgen.wide_library(**opts))
         cs = [x for x in libgen.cases_of(lib, set(K.FROWS), set(K.FRESULTS)) if stringy(x)]
         cs += [x for x in K.vector_cases() if x["name"] == "v10"]
+        cs += [x for x in K.fortran_cases() if x["name"] == "f4v"]       # std::string by value
         configs.append((tag, opts, cs))
     with common.scratch("c10e-") as base:
         with cf.ThreadPoolExecutor(2) as ex:
